@@ -38,13 +38,173 @@ from funsor.gaussian import Gaussian
 from funsor.montecarlo import extract_samples
 from funsor.terms import Funsor
 
-KF_ZERO = "KF-sample-zero-uniform"
-KF_ROUND = "KF-sample-cumsum-rounding"      # reported by this harness; see final message / assumptions
+import ast
+import os
+
+from ..common import LEAN, REPO
+
 DECLINE = (NotImplementedError, AssertionError, ValueError, TypeError, KeyError)
 TINY = 2.0 ** -60
 TOP = 1.0 - 2.0 ** -53
 SAFE_TOP = 1.0 - 2.0 ** -20
 WEIGHTS = [0.0, 0.0, 0.25, 0.5, 1.0, 1.0, 2.0, 3.0, 4.0]
+
+
+# --------------------------------------------------------------------------------------
+# Translator: the draw statement of Tensor._sample  ->  lean/FunsorVerif/Gen/C14Variant.lean
+# --------------------------------------------------------------------------------------
+
+VARIANT = dict(cmp="le", dropLast=True, clamp=True, recognised=True, source="(not extracted)")
+LAST_TEMPLATE = "last = probs.shape[-1] - 1 - np.argmax((probs > 0)[..., ::-1], axis=-1)"
+
+
+def _is_name(node, name):
+    return isinstance(node, ast.Name) and node.id == name
+
+
+def _is_np_call(node, fn):
+    return (isinstance(node, ast.Call) and isinstance(node.func, ast.Attribute) and node.func.attr == fn
+            and _is_name(node.func.value, "np"))
+
+
+def _is_r_column(node):
+    """np.expand_dims(r, -1)  or  r[..., None]"""
+    if _is_np_call(node, "expand_dims") and len(node.args) == 2 and _is_name(node.args[0], "r"):
+        return ast.unparse(node.args[1]) == "-1"
+    return ast.unparse(node) in ("r[..., None]",)
+
+
+def read_variant(repo=None):
+    """AST of funsor/tensor.py: every assignment to `flat_sample` in the numpy branch of Tensor._sample."""
+    repo = repo or REPO
+    src = (repo / "funsor" / "tensor.py").read_text()
+    tree = ast.parse(src)
+    fn = None
+    for node in ast.walk(tree):
+        if isinstance(node, ast.ClassDef) and node.name == "Tensor":
+            for sub in node.body:
+                if isinstance(sub, ast.FunctionDef) and sub.name == "_sample":
+                    fn = sub
+    v = dict(cmp="lt", dropLast=False, clamp=False, recognised=False, source="")
+    if fn is None:
+        v["source"] = "Tensor._sample not found"
+        return v
+    branch = None
+    for node in ast.walk(fn):
+        if isinstance(node, ast.If) and "backend != 'numpy'" in ast.unparse(node.test).replace('"', "'"):
+            branch = node.orelse
+    if branch is None:
+        v["source"] = "numpy branch not found"
+        return v
+    assigns = [n for stmt in branch for n in ast.walk(stmt)
+               if isinstance(n, ast.Assign) and any(_is_name(t, "flat_sample") for t in n.targets)]
+    last_defs = [n for stmt in branch for n in ast.walk(stmt)
+                 if isinstance(n, ast.Assign) and any(_is_name(t, "last") for t in n.targets)]
+    v["source"] = " ; ".join(ast.unparse(a) for a in assigns)
+    if not assigns:
+        return v
+    ok = True
+    first = assigns[0].value
+    if (_is_np_call(first, "sum") and len(first.args) == 1 and isinstance(first.args[0], ast.Compare)
+            and len(first.args[0].ops) == 1 and [ast.unparse(k) for k in first.keywords] == ["axis=-1"]):
+        cmpn = first.args[0]
+        left, right, op = cmpn.left, cmpn.comparators[0], cmpn.ops[0]
+        if isinstance(op, ast.Lt):
+            v["cmp"] = "lt"
+        elif isinstance(op, ast.LtE):
+            v["cmp"] = "le"
+        else:
+            ok = False
+        if _is_name(left, "s"):
+            v["dropLast"] = False
+        elif ast.unparse(left) == "s[..., :-1]":
+            v["dropLast"] = True
+        else:
+            ok = False
+        if not _is_r_column(right):
+            ok = False
+    else:
+        ok = False
+    rest = assigns[1:]
+    if len(rest) == 1 and ast.unparse(rest[0].value) == "np.minimum(flat_sample, last)" \
+            and len(last_defs) == 1 and ast.unparse(last_defs[0]) == LAST_TEMPLATE:
+        v["clamp"] = True
+    elif rest:
+        ok = False
+    # the statements the model takes as given around the draw
+    text = ast.unparse(ast.Module(body=branch, type_ignores=[]))
+    for needed in ("logit_max = np.amax(flat_logits, -1, keepdims=True)", "probs = np.exp(flat_logits - logit_max)",
+                   "probs = probs / np.sum(probs, -1, keepdims=True)", "s = np.cumsum(probs, -1)",
+                   "r = np.random.rand(*shape)", "shape = sample_shape + flat_logits.shape[:-1]"):
+        if needed not in text:
+            ok = False
+            v["source"] += f" ; missing: {needed}"
+    v["recognised"] = ok
+    return v
+
+
+def variant_pick(variant, probs, r):
+    """Exact-arithmetic reading of the recognised statement (Fractions)."""
+    acc, s = Fraction(0), []
+    for q in probs:
+        acc += q
+        s.append(acc)
+    if variant["dropLast"]:
+        s = s[:-1]
+    k = sum(1 for x in s if (x < r if variant["cmp"] == "lt" else x <= r))
+    if variant["clamp"]:
+        pos = [i for i, q in enumerate(probs) if q > 0]
+        k = min(k, pos[-1] if pos else len(probs) - 1)
+    return k
+
+
+def live_crosscheck(variant):
+    """Cross-check the AST reading against the live function on diagnostic draws (exact rows, r on a
+    boundary / 0; and one row whose float cumsum ends below 1-2^-53 to see the rounding guard)."""
+    diag = [([1.0, 1.0], 0.5), ([0.0, 1.0], 0.0), ([1.0, 1.0, 1.0, 1.0], 0.75), ([1.0, 0.0, 1.0], 0.5)]
+    for W, r in diag:
+        got = _draw_1d(W, r)
+        tot = sum(Fraction(w) for w in W)
+        want = variant_pick(variant, [Fraction(w) / tot for w in W], Fraction(r))
+        if got != want:
+            return False, f"W={W} r={r}: live {got}, AST reading {want}"
+    got = _draw_1d([0.25, 7.0, 0.25, 0.0], TOP)
+    want = 2 if variant["clamp"] else 3
+    if variant["cmp"] == "le" and variant["dropLast"] and got != want:
+        return False, f"rounding guard: live {got}, AST reading {want}"
+    return True, ""
+
+
+def _draw_1d(W, r):
+    f = Tensor(log_of(W), OrderedDict(a=Bint[len(W)]))
+    with RandStub(rand_fn=lambda shape: np.full(shape, r)), np.errstate(all="ignore"):
+        smp = f.sample(frozenset(["a"]))
+    return int(np.asarray(extract_samples(smp)["a"].data))
+
+
+def extract(ctx):
+    global VARIANT
+    v = read_variant()
+    if v["recognised"]:
+        try:
+            ok, why = live_crosscheck(v)
+        except Exception as e:   # the live function does not even run on the diagnostics
+            ok, why = False, f"{type(e).__name__}: {e}"
+        if not ok:
+            v["recognised"] = False
+            v["source"] += " ; live cross-check failed: " + why
+    VARIANT = v
+    ctx.extra["sample_variant"] = dict(v)
+    b = lambda x: "true" if x else "false"
+    text = (
+        "/- GENERATED by fv/harness/c14.py extract() from funsor/tensor.py (Tensor._sample, numpy branch). Do not edit. -/\n"
+        "import FunsorVerif.Model.C14\nnamespace FV.Gen.C14\nopen FV.C14\n\n"
+        f"/-- source: {v['source'].replace('-/', '- /')} -/\n"
+        f"def variant : Variant := {{ cmp := Cmp.{v['cmp']}, dropLast := {b(v['dropLast'])}, "
+        f"clamp := {b(v['clamp'])}, recognised := {b(v['recognised'])} }}\n\nend FV.Gen.C14\n")
+    path = LEAN / "FunsorVerif" / "Gen" / "C14Variant.lean"
+    if not path.exists() or path.read_text() != text:
+        path.write_text(text)
 
 
 # --------------------------------------------------------------------------------------
@@ -99,12 +259,22 @@ def log_of(w):
 # Tensor.sample
 # --------------------------------------------------------------------------------------
 
+ROUNDING_ROWS = [[0.0, 0.25, 7.0, 0.25], [0.25, 7.0, 0.25, 0.0], [0.0, 0.25, 7.0, 0.0]]
+
+
 def gen_weights(rng, shape, p_zero=None):
     n = int(np.prod(shape)) if shape else 1
     style = rng.random()
-    if style < 0.15:      # {0,1} weights: probabilities exactly representable when the count is 2^k
+    if style < 0.12:      # rows whose float cumsum tends to end below 1; zeros at the ends / inside
+        vals = [rng.choice([0.25, 0.5, 1.0, 2.0, 3.0, 5.0, 7.0]) for _ in range(n)]
+        for pos in ([0], [n - 1], [0, n - 1], [n // 2], list(range(n // 2, n)))[rng.randrange(5)]:
+            vals[pos] = 0.0
+        if n == 4 and rng.random() < 0.5:
+            vals = list(rng.choice(ROUNDING_ROWS))
+        return np.array(vals, dtype=np.float64).reshape(shape)
+    if style < 0.24:      # {0,1} weights: probabilities exactly representable when the count is 2^k
         vals = [rng.choice([0.0, 1.0, 1.0]) for _ in range(n)]
-    elif style < 0.25:    # a whole row / column of zeros is likely
+    elif style < 0.34:    # a whole row / column of zeros is likely
         vals = [rng.choice([0.0, 0.0, 0.0, 1.0, 2.0]) for _ in range(n)]
     else:
         vals = [rng.choice(WEIGHTS) for _ in range(n)]
@@ -143,18 +313,17 @@ def boundaries(cells):
 
 
 def py_pick(cells, r):
-    """Exact-arithmetic oracle of the draw: number of prefix sums < r (0 for an all-zero row)."""
-    bs = boundaries(cells)
-    if not bs:
+    """Exact-arithmetic oracle of the draw as the source reads now (0 for an all-zero row)."""
+    tot = sum(w for _, w in cells)
+    if tot == 0:
         return 0
-    r = Fraction(float(r))
-    return sum(1 for s in bs if s < r)
+    return variant_pick(VARIANT, [w / tot for _, w in cells], Fraction(float(r)))
 
 
 def make_uniforms(rng, mode, shape, c):
-    """Uniforms for the clean stream: strictly inside (0,1), never within 1e-9 of an exact CDF boundary
-    except for the 'exact' mode (dyadic probabilities, where float arithmetic is exact), never in the top
-    2^-20 of [0,1) unless the row's arithmetic is exact (float cumsum may end below 1: KF_ROUND)."""
+    """Uniforms in [0,1) — the range of numpy.random.rand — including exactly 0.0 and the top few ulps.
+    Interior values stay 1e-9 away from exact CDF boundaries (so the exact model predicts the same cell)
+    except in the 'exact' mode (dyadic probabilities: float arithmetic is exact, r sits on a boundary)."""
     n = int(np.prod(shape)) if shape else 1
     batch, sampled, rows = exact_rows(c)
     blist = list(rows)
@@ -170,14 +339,26 @@ def make_uniforms(rng, mode, shape, c):
     for k in range(n):
         cells = rows[blist[k % nb]]
         bs = boundaries(cells)
+        if mode == "zero":
+            out.append(0.0)
+            continue
+        if mode == "ulps":
+            out.append(1.0 - rng.choice([1, 1, 2, 3, 5, 8]) * 2.0 ** -53)
+            continue
+        if mode == "edges":
+            out.append(rng.choice([0.0, 0.0, TINY, TOP, TOP, 1.0 - 2.0 ** -52, 0.5]))
+            continue
         if mode == "tiny":
             r = TINY
         elif mode == "half":
             r = 0.5
         elif mode == "top":
-            r = TOP if all_dyadic else SAFE_TOP
+            out.append(TOP)
+            continue
         elif mode == "grid":
             r = rng.choice([TINY, 0.125, 0.25, 0.5, 0.75, 0.875, SAFE_TOP])
+            if r in (0.125, 0.25, 0.5, 0.75, 0.875) and not all_dyadic and any(abs(float(x) - r) < 1e-9 for x in bs):
+                r = r + 1e-6
         elif mode == "boundary" and bs:
             s = float(rng.choice(bs))
             r = s + rng.choice([-1e-6, 1e-6, -1e-4, 1e-4])
@@ -216,7 +397,8 @@ def gen_sample_case(rng, sizes=None, sampled=None):
     if ns and rng.random() < 0.12:
         # a sample input named like an existing input is dropped by _sample
         sample_inputs[0] = (rng.choice(names), rng.choice([2, 3]))
-    mode = rng.choice(["tiny", "half", "top", "grid", "boundary", "boundary", "exact", "random", "random"])
+    mode = rng.choice(["zero", "zero", "top", "top", "ulps", "edges", "tiny", "half", "grid", "boundary", "boundary",
+                       "exact", "random", "random"])
     return dict(inputs=inputs, sampled=sampled, W=W, sample_inputs=sample_inputs, mode=mode)
 
 
@@ -527,80 +709,39 @@ def law_case(ctx, c, M=64):
     ctx.case(nontrivial_key=("law", tuple(c["inputs"]), tuple(c["sampled"]), c["W"].tobytes()))
 
 
-def known_zero_uniform(ctx):
-    """Dedicated stream of KF-sample-zero-uniform: r == 0.0 exactly, first cell of probability 0."""
+def rounding_stream(ctx, use_driver=True):
+    """Rows whose float cumsum ends below 1 (up to 64 cells, zeros at the ends), joint draw over all
+    inputs, uniforms exactly 0.0 and in the top ulps of [0,1): out-of-range index / wrap-around /
+    trailing zero cell must not be selected."""
     rng = ctx.rng
-    hits = 0
-    n = 0
-    for _ in range(12):
-        k = rng.choice([1, 2])
-        sizes = [rng.choice([2, 3, 4]) for _ in range(k)]
-        c = gen_sample_case(rng, sizes=sizes, sampled=list(range(k)))
-        c["sample_inputs"] = []
-        W = c["W"]
-        W.reshape(-1)[0] = 0.0
-        W.reshape(-1)[-1] = 1.0
-        res = run_sample(c, R=np.zeros(()))
-        if res["status"] != "value":
-            continue
-        n += 1
-        pts = extract_samples(res["s"])
-        try:
-            e = tuple(int(np.asarray(pts[name].data)) for name in [nm for nm, _ in c["inputs"]])
-        except Exception:
-            continue
-        if W[e] == 0.0:
-            hits += 1
-    ctx.count("known:zero-uniform:tried", n)
-    ctx.count("known:zero-uniform:reproduced", hits)
-    what = ("Tensor._sample: a uniform draw of exactly 0.0 selects cell 0 even when its probability is 0 "
-            f"(reproduced in {hits}/{n} dedicated cases)")
-    if not ctx.known(KF_ZERO, reproduced=hits > 0, what=what):
-        if hits > 0:
-            ctx.fail("input", "C14.sample-zero-uniform",
-                     witness=dict(W=[0.0, 1.0], r=0.0, problem="r = 0.0 selects a probability-0 cell"),
-                     expected="cell 1", got="cell 0",
-                     python="import numpy as np\nfrom collections import OrderedDict\nfrom funsor.domains import Bint\n"
-                            "from funsor.tensor import Tensor\nfrom funsor.montecarlo import extract_samples\n"
-                            "f = Tensor(np.array([-np.inf, 0.0]), OrderedDict(a=Bint[2]))\n_r = np.random.rand\n"
-                            "np.random.rand = lambda *s: np.zeros(s)\ntry:\n    s = f.sample(frozenset(['a']))\n"
-                            "finally:\n    np.random.rand = _r\nFAILS = int(extract_samples(s)['a'].data) == 0\n")
-
-
-def known_cumsum_rounding(ctx):
-    """Dedicated stream of the float effect the exact model cannot exhibit: the last prefix sum rounds
-    below the uniform, the count s < r equals the number of cells and the decode loop wraps to cell 0."""
-    rng = ctx.rng
-    hits = tried = 0
-    first = None
-    for _ in range(60):
-        sizes = [4, 4, rng.choice([3, 4])]
-        c = gen_sample_case(rng, sizes=sizes, sampled=[0, 1, 2])
-        c["sample_inputs"] = []
-        W = np.array([rng.choice([0.25, 0.5, 1.0, 2.0, 3.0, 5.0, 7.0]) for _ in range(int(np.prod(sizes)))],
-                     dtype=np.float64).reshape(sizes)
-        W.reshape(-1)[0] = 0.0
+    n = 80 if ctx.tier == "quick" else 1200
+    for _ in range(n):
+        sizes = rng.choice([[4], [4], [3, 4], [4, 4], [4, 4, 3], [4, 4, 4], [2, 4]])
+        k = len(sizes)
+        sub = list(range(k)) if rng.random() < 0.7 else sorted(rng.sample(range(k), rng.randint(1, k)))
+        c = gen_sample_case(rng, sizes=list(sizes), sampled=sub)
+        tot = int(np.prod(sizes))
+        if tot == 4 and rng.random() < 0.6:
+            W = np.array(rng.choice(ROUNDING_ROWS), dtype=np.float64).reshape(sizes)
+        else:
+            W = np.array([rng.choice([0.25, 0.5, 1.0, 2.0, 3.0, 5.0, 7.0]) for _ in range(tot)],
+                         dtype=np.float64).reshape(sizes)
+            z = rng.choice(["lead", "trail", "both", "inner"])
+            flat = W.reshape(-1)
+            if z in ("lead", "both"):
+                flat[:rng.randint(1, max(1, tot // 4))] = 0.0
+            if z in ("trail", "both"):
+                flat[tot - rng.randint(1, max(1, tot // 4)):] = 0.0
+            if z == "inner":
+                flat[tot // 2] = 0.0
+            if not (flat > 0).any():
+                flat[tot // 2] = 1.0
         c["W"] = W
-        res = run_sample(c, R=np.array(TOP))
-        if res["status"] != "value":
-            continue
-        tried += 1
-        pts = extract_samples(res["s"])
-        e = tuple(int(np.asarray(pts[name].data)) for name, _ in c["inputs"])
-        if W[e] == 0.0:
-            hits += 1
-            first = first or dict(W=W.tolist(), inputs=c["inputs"], r=TOP, point=e)
-    ctx.count("known:cumsum-rounding:tried", tried)
-    ctx.count("known:cumsum-rounding:reproduced", hits)
-    what = ("Tensor._sample: float cumsum ends below the uniform (r = 1-2^-53), flat index = number of cells, "
-            f"decode wraps to cell 0 of probability 0 (reproduced in {hits}/{tried} dedicated cases)")
-    listed = any(f["id"] == KF_ROUND for f in ctx.findings)
-    if listed:
-        if not ctx.known(KF_ROUND, reproduced=hits > 0, what=what) and hits > 0:
-            ctx.fail("input", "C14.sample-cumsum-rounding", witness=first, expected="a cell of the support",
-                     got="cell 0 (probability 0)")
-    else:
-        ctx.extra["unlisted_observation_" + KF_ROUND] = dict(reproduced=hits, tried=tried, example=first, what=what)
+        c["mode"] = rng.choice(["zero", "top", "ulps", "edges"])
+        if rng.random() < 0.5:
+            c["sample_inputs"] = []
+        ctx.count("sample:rounding-stream")
+        check_sample_case(ctx, c, use_driver=use_driver)
 
 
 def sample_streams(ctx, use_driver=True):
@@ -1115,8 +1256,7 @@ def correspond(ctx):
         "(Delta), >= 2 sampled dimensions or a conditioning block (Gaussian); distinct by full case content.")
     radix_box(ctx)
     sample_streams(ctx)
-    known_zero_uniform(ctx)
-    known_cumsum_rounding(ctx)
+    rounding_stream(ctx)
     delta_streams(ctx)
     gauss_streams(ctx)
     d = ctx.distribution
